@@ -33,13 +33,20 @@ def gate_table(repo: Repo) -> List[GateEntry]:
             continue
         call = stmt.value
         callee = (dotted(call.func) or "").split(".")[-1]
+        applied_prototype = False
+        if isinstance(call.func, ast.Call) and (dotted(call.func.func) or "").split(".")[-1] == "make_parametric_gate_prototype" and not call.args and not call.keywords:
+            # `make_parametric_gate_prototype(name, factory, k, herm)()`: the prototype applied to no parameters is the
+            # non-parametric gate itself
+            call = call.func
+            callee = "make_parametric_gate_prototype"
+            applied_prototype = True
         if callee == "MatrixFactoryGate":
             name, fac, params, nq, herm = (arg_or_kw(call, 0, "name"), arg_or_kw(call, 1, "matrix_factory"), arg_or_kw(call, 2, "params"), arg_or_kw(call, 3, "num_qubits"), arg_or_kw(call, 4, "is_hermitian"))
             parametric = False
         elif callee == "make_parametric_gate_prototype":
             name, fac, nq, herm = (arg_or_kw(call, 0, "name"), arg_or_kw(call, 1, "matrix_factory"), arg_or_kw(call, 2, "num_qubits"), arg_or_kw(call, 3, "is_hermitian"))
-            params = None
-            parametric = True
+            params = ast.Tuple(elts=[], ctx=ast.Load()) if applied_prototype else None
+            parametric = not applied_prototype
         else:
             continue
         factory = None
